@@ -139,7 +139,8 @@ Definition from_proto (vs : valset) : option valset :=
 Inductive pclass := PNil | PNoMeta | PBadSet | PNoParams.
 Inductive lres := LPanic (c : pclass) | LEmpty | LOk (s : cstate).
 
-(** loadStateAtHeight.  The block id is taken from the block meta only above height 0 (fix
+(** loadStateAtHeight.  The block id (fix 12b60d8) and the app hash (fix 1aee27d) are taken from
+    the block store only above height 0 (fix
     12b60d8: the genesis state keeps the zero id that MakeGenesisState gave it).
     The three reads of validator records: a missing record is dereferenced (nil pointer),
     a record without / with an invalid set makes ValidatorSetFromProto fail (panic(err)) *)
@@ -163,7 +164,9 @@ Definition load_at (d : db) (h : N) : lres :=
     match get h (d_bm d) with
     | None => LPanic PNoMeta
     | Some m =>
-      let app := match get h (d_ah d) with Some a => a | None => 0 end in
+      (* fix 1aee27d: the app hash is read only above height 0 (the genesis state keeps the
+         zero AppHash MakeGenesisState gave it) *)
+      let app := if N.ltb 0 h then match get h (d_ah d) with Some a => a | None => 0 end else 0 in
       let lastv : pclass + option valset :=
         if N.ltb 0 (m_height m) then
           match read_set d (r_last r) with inl c => inl c | inr (x, _) => inr (Some x) end
